@@ -75,3 +75,10 @@ func (w *W) Close() error {
 	}
 	return w.f.Close()
 }
+
+// Flush writes buffered lines to the file (used before an action that may crash the process).
+func (w *W) Flush() {
+	w.mu.Lock()
+	w.b.Flush()
+	w.mu.Unlock()
+}
